@@ -162,6 +162,16 @@ func (fr *Frame) libModel(c ssa.CallInstruction, fn *ssa.Function, st *State, a 
 	}
 	rts := resultTypes(c)
 	switch name {
+	case "strings.LastIndex":
+		// exact characterisation: r is -1 and sep does not occur, or sep occurs at r and nowhere later
+		// (an empty sep gives len(s), as in Go)
+		n := fe.fresh(fr.prefix + "LastIndex")
+		fe.declConst(n, SInt)
+		sv, sep := a[0].S, a[1].S
+		fe.assume(fmt.Sprintf("(ite (= %s \"\") (= %s (str.len %s)) (or (and (= %s (- 1)) (not (str.contains %s %s))) (and (<= 0 %s) (= (str.substr %s %s (str.len %s)) %s) (not (str.contains (str.substr %s (+ %s 1) (str.len %s)) %s)))))",
+			sep, n, sv, n, sv, sep, n, sv, n, sep, sep, sv, n, sv, sep))
+		fe.libTrusted(name)
+		return []Term{{n, SInt, rts[0]}}, true
 	case "time.Now":
 		n := fe.fresh("now")
 		fe.declConst(n, SInt)
